@@ -179,6 +179,17 @@ Step ==
                               \cup (IF differ THEN {<<l, IF mode = "recover" THEN "C13.replication_roles_differ_after_recovery"
                                                         ELSE "C07.replication_roles_differ_after_convergence">>} ELSE {})
               /\ UNCHANGED <<cur, synced, skipped, mode, inst, commits, expect, checking>>
+         [] e.kind = "redis_roles" ->
+              \* L2 (spec/Repl.tla Settled; monitor names starting with "L2." are reported as divergences, never as violations):
+              \* one replicator period after convergence every reachable Redis node is what the broker's view says: a master is
+              \* nobody's replica, a replica follows the master named in its peer record
+              LET V == IF HasView(cur, e.cluster) THEN ViewOf(cur, e.cluster) ELSE [nodes |-> <<>>]
+                  WantOf(a) == LET ns == {n \in DOMAIN V.nodes : V.nodes[n].addr = a} IN
+                               IF ns = {} THEN "?" ELSE LET n == CHOOSE x \in ns : TRUE IN
+                               IF V.nodes[n].role = "master" THEN "" ELSE IF Len(V.nodes[n].peers) >= 1 THEN V.nodes[n].peers[1].node ELSE "?"
+                  bad == checking /\ HasView(cur, e.cluster) /\ \E i \in DOMAIN e.nodes : WantOf(e.nodes[i].node) \notin {"?", e.nodes[i].master_of}
+              IN /\ viol' = viol \cup (IF bad THEN {<<l, "L2.redis_role_differs_from_view">>} ELSE {})
+                 /\ UNCHANGED <<cur, synced, skipped, mode, inst, commits, expect, checking>>
          [] e.kind = "ctl_end" -> checking' = FALSE /\ UNCHANGED <<cur, synced, viol, skipped, mode, inst, commits, expect>>
          [] OTHER -> UNCHANGED <<cur, synced, viol, skipped, mode, inst, commits, expect, checking>>
     /\ l' = l + 1
